@@ -223,7 +223,7 @@ Print Assumptions C18_source_iterators_are_the_modelled_ones.
    inner iterator's items and stop their own loop; that the inner one stops is its own theorem.) *)
 From Bio.gen Require ImpGen.
 From Bio.Model Require GoSem.
-From Bio.Proofs Require ImpProofs ImpProofsI ImpProofsJ ImpProofsK ImpProofsL ImpProofsQ ImpProofsP ImpProofsR ImpProofsU ImpProofsW ImpProofsY.
+From Bio.Proofs Require ImpProofs ImpProofsI ImpProofsJ ImpProofsK ImpProofsL ImpProofsQ ImpProofsP ImpProofsR ImpProofsU ImpProofsW ImpProofsY ImpProofsZ.
 
 Theorem C18_canonical_stop_is_source : forall p s k, ImpProofs.all_bytes s ->
   ImpGen.imp_sequtil_CanonicalSubsequences_stop p s k
@@ -306,6 +306,41 @@ Theorem C18_for_each_stop_is_source : forall p fuel h x r,
   ImpGen.imp_trie_Trie_ForEach_stop p fuel h (ImpProofsP.addr x) = GoSem.Ret (h, r).
 Proof. exact ImpProofsY.imp_ForEach_stop_ok. Qed.
 Print Assumptions C18_for_each_stop_is_source.
+
+(* the File adapters: stopped after p items, the first p items of Reader on the file's content *)
+Theorem C18_file_stop_is_source : forall p fuel file,
+  (forall inp t, (length inp + 2 < fuel)%nat ->
+     ImpGen.imp_fastard_File_stop p fuel (Some (GoSem.Stream inp (ImpProofsJ.term_code t) None)) file
+     = GoSem.Ret (GoSem.Stream [] (ImpProofsJ.term_code t) None,
+                  ImpProofsU.take_stop p (map (ImpProofsJ.fa_item t) (Fasta.decode inp t))))
+  /\ (forall cur (toks : list bytes) t, (length toks + 1 < fuel)%nat ->
+     exists s' out, ImpGen.imp_fastqrd_File_stop p fuel (Some (GoSem.Scanner cur toks (ImpProofsK.scan_code t) false)) file
+                    = GoSem.Ret (s', ImpProofsU.take_stop p out)
+                    /\ Forall2 ImpProofsK.fq_item_ok (Fastq.decode_toks t toks) out)
+  /\ (forall s t, (length s + 2 < fuel)%nat ->
+     exists st, ImpGen.imp_bed_File_stop p fuel (Some (GoSem.Stream s (ImpProofsJ.term_code t) None)) file
+                = GoSem.Ret (st, ImpProofsU.take_stop p (map ImpProofsL.bed_item (Bed.decode s t))))
+  /\ (forall o s t, (length s + 1 < fuel)%nat ->
+     (exists st, ImpGen.imp_samrd_File_stop p fuel o (Some (GoSem.Stream s (ImpProofsJ.term_code t) None)) file
+                 = GoSem.Ret (st, ImpProofsU.take_stop p (map ImpProofsQ.sr_item (Sam.reader o s t)))) /\
+     (exists st, ImpGen.imp_samrd_FileHeader_stop p fuel o (Some (GoSem.Stream s (ImpProofsJ.term_code t) None)) file
+                 = GoSem.Ret (st, ImpProofsU.take_stop p (map ImpProofsQ.sh_item (Sam.reader_header o s t)))))
+  /\ (forall o tm h s, (length s + 2 < fuel)%nat ->
+     match Newick.decode o s tm with
+     | Ok items => exists st h' out,
+         ImpGen.imp_newickrd_File_stop p fuel o h (Some (GoSem.Stream s (ImpProofsJ.term_code tm) None)) file
+         = GoSem.Ret (st, (h', ImpProofsU.take_stop p out)) /\
+         Forall2 (ImpProofsR.item_holds h') items out /\ ImpProofsR.keeps (GoSem.go_len h) h h'
+     | _ => True
+     end).
+Proof.
+  intros p fuel file. split; [intros inp t H; apply (ImpProofsZ.imp_fasta_File_stop p fuel file inp t H)|].
+  split; [intros cur toks t H; apply ImpProofsZ.imp_fastq_File_stop; exact H|].
+  split; [intros s t H; apply ImpProofsZ.imp_bed_File_stop; exact H|].
+  split; [intros o s t H; apply ImpProofsZ.imp_sam_File_stop; exact H|].
+  intros o tm h s H. apply ImpProofsZ.imp_newick_File_stop. exact H.
+Qed.
+Print Assumptions C18_file_stop_is_source.
 
 Example C18_source_stop_example :
   ImpGen.imp_sequtil_CanonicalSubsequences_stop 2 (bs "ACGTT") 2 = GoSem.Ret [bs "AC"; bs "CG"]
